@@ -1,5 +1,5 @@
 (** C13 over the Go source: verdict shape and text-free errors of the translated validation entry points. *)
-From OtpV Require Import Prelude Sha GoSem Tables Errors Decoder Derive Otp Ocra LeakProofs Src SrcLift SrcEqOtp SrcEqOcra SrcTop C13.
+From OtpV Require Import Prelude Sha GoSem Tables Errors Decoder Derive Otp Ocra LeakProofs Src SrcLift SrcTop SrcEqDecode SrcEqOtp SrcEqOcraV SrcEqOcra C13.
 Open Scope N_scope.
 
 Theorem C13src_hotp : forall fuel junk secret code c p, runs fuel junk secret ->
@@ -37,7 +37,7 @@ Theorem C13src_post_hmac : forall fuel junk code key c d a e,
 Proof.
   intros fuel junk code key c d a e Hf Hj Hd H.
   rewrite src_validateRFC4226_eq in H by assumption.
-  pose proof (SrcEqOtp.validate_no_err code (Z.of_N d) (fun _ => derive_rfc4226_with hmac key c (Z.of_N d) (N_of_alg a))) as Hne.
+  pose proof (SrcEqValidate.validate_no_err code (Z.of_N d) (fun _ => derive_rfc4226_with hmac key c (Z.of_N d) (N_of_alg a))) as Hne.
   unfold validate_rfc4226 in H. unfold lift_v in H.
   destruct (Otp.validate code (Z.of_N d) (fun _ => derive_rfc4226_with hmac key c (Z.of_N d) (N_of_alg a))) as [o k] eqn:E.
   cbn [fst] in *. destruct o as [[b oe]|e0|]; [|exfalso; apply (Hne e0); reflexivity|discriminate].
